@@ -150,6 +150,15 @@ def paths(block: Sequence[ast.stmt], limit: int = 5000) -> List[Tuple[List[Event
             for h in st.handlers:
                 run(list(h.body) + list(st.finalbody), 0, events + [("handler", h)], {}, {}, nxt)
             return
+        if isinstance(st, ast.Assign) and len(st.targets) == 1 and isinstance(st.targets[0], ast.Name) and isinstance(st.value, (ast.Compare, ast.BoolOp)) or (
+            isinstance(st, ast.Assign) and len(st.targets) == 1 and isinstance(st.targets[0], ast.Name) and isinstance(st.value, ast.UnaryOp) and isinstance(st.value.op, ast.Not)
+        ):
+            # a condition stored in a name: decide it here, remember the outcome as a flag
+            for v, ev, k2 in _decide(st.value, flags, known):
+                f3 = dict(flags)
+                f3[st.targets[0].id] = v
+                nxt(events + ev + [("stmt", st)], f3, k2)
+            return
         f2 = flags
         if isinstance(st, ast.Assign) and len(st.targets) == 1 and isinstance(st.targets[0], ast.Name):
             f2 = dict(flags)
